@@ -499,8 +499,52 @@ def execute_event(ev):
         ok = all(_owner(a) is t for f in made if f is not None for a in f.atoms)
         return {"cls": "T" if ok else "F"}
     if op == "pickle":
+        how = ev.get("how", "plain")
+        if how == "after-refused-duplicate":
+            # a second table under the same name is refused; the first one stays what its atoms are restored into
+            from periodictable import core
+            try:
+                core.PeriodicTable(ev["T"] if ev["T"] != "pub" else "public")
+                return {"cls": "F", "msg": "duplicate table name accepted"}
+            except ValueError:
+                pass
+        if how == "orphans":
+            # atoms (and a formula made of them) of a table nobody holds any more
+            import gc
+            from periodictable import core, mass, density
+
+            def helper():
+                t = core.PeriodicTable("helper-%d" % len(core.PRIVATE_TABLES))
+                mass.init(t)
+                density.init(t)
+                return [t.Co, t.Co[59], t.Co.ion[2], t.Co[59].ion[2], P.formula({t.Co: 1, t.O: 3})]
+            keep = helper()
+            gc.collect()
+            try:
+                ok = all(pickle.loads(pickle.dumps(x)) is x for x in keep[:4])
+                f2 = pickle.loads(pickle.dumps(keep[4]))
+                ok = ok and all(a is b for a, b in zip(sorted(f2.atoms, key=str), sorted(keep[4].atoms, key=str)))
+            except Exception as e:
+                return {"cls": "F", "msg": "%s: %s" % (type(e).__name__, str(e)[:80])}
+            return {"cls": "T" if ok else "F"}
+        if how == "bare":
+            # a table without isotope masses: whatever formula(text, table=T) returns belongs to T (or it raises)
+            from periodictable import core, density
+            t = core.PeriodicTable("bare-%d" % len(core.PRIVATE_TABLES))
+            density.init(t)
+            for text in ("aa:GA", "H[1]2O", "CoO", "Co[59]O"):
+                try:
+                    f = P.formula(text, table=t)
+                except Exception:
+                    continue
+                if not all(_owner(a) is t for a in f.atoms):
+                    return {"cls": "F", "msg": "atoms of another table for " + text}
+            return {"cls": "T"}
         at = atom(ev["T"], ev["a"])
-        back = pickle.loads(pickle.dumps(at))
+        try:
+            back = pickle.loads(pickle.dumps(at))
+        except Exception as e:          # restoring must not fail
+            return {"cls": "F", "msg": "%s: %s" % (type(e).__name__, str(e)[:80])}
         return {"cls": "T" if back is at else "F"}
     raise KeyError(op)
 
